@@ -231,6 +231,9 @@ def _gran_forwarding(ctx, pid, comp, ex, cn, wports, gnone):
 
 def check(ctx):
     check_bank(ctx)
+    from . import masklay
+
+    masklay.mask_layout(ctx, "C21", REL, "MemoryBank")
     # MemoryBank is parametrised by the memory type; the well-formedness of the ILVT of the multiport memories it may be
     # instantiated with is part of its mechanism (a too narrow bank index makes reads return another bank's contents)
     from . import c23y
